@@ -657,10 +657,21 @@ def strip_probes(g):
     return d
 
 
+def has_numeric_leaf(g):
+    """uint / int_ / float_ are built from an internal lexeme: whether the ambient skipper runs inside them
+    is observable only under a skipper that skips something between a sign / digit / dot"""
+    if g["k"] in ("uint", "int", "float"):
+        return True
+    return any(has_numeric_leaf(c) for c in kids(g))
+
+
 def skippers_for(g, idx, tier):
     allowed = SK_NOFAIL + ([] if rep_outside_lexeme(g) else SK_FAIL)
     if tier == "quick":
-        return ["eps", allowed[idx % len(allowed)]]
+        rot = allowed[idx % len(allowed)]
+        if has_numeric_leaf(g) and rot != "space":
+            return ["eps", "space", rot]
+        return ["eps", rot]
     rest = [s for s in allowed if s != "space"]
     return ["eps", "space", rest[idx % len(rest)]]
 
